@@ -10,6 +10,7 @@ import (
 	"go/types"
 	"math"
 	"math/big"
+	"os"
 	"sort"
 	"strings"
 
@@ -113,6 +114,7 @@ type runCtx struct {
 	freshTerms map[string]bool
 	config     map[string]bool
 	freeVars   map[string]bool
+	retPCs     map[*ssa.Return][][]Term
 }
 
 func newMachine(prog *ssa.Program, pkg *ssa.Package, cf *ContractFile, pre *Prelude) *Machine {
@@ -399,6 +401,11 @@ func (m *Machine) loadArr(st *State, obj *Obj) Term {
 		return v.(Term)
 	}
 	// the initial contents of an object are one symbol shared by all states
+	if st.isHavocked(obj, "") {
+		t := m.arrayInit(obj, false)
+		st.mem[k] = t
+		return t
+	}
 	t, ok := m.initCells[k].(Term)
 	if !ok {
 		t = m.arrayInit(obj, false)
@@ -418,10 +425,17 @@ func (m *Machine) loadCell(st *State, obj *Obj, path []int, typ types.Type) Valu
 	}
 	// lazily materialise the symbolic initial value; it is shared by all states
 	// (so that old(e.f) and e.f denote the same value when e.f was never written)
-	v, ok := m.initCells[k]
-	if !ok {
-		v = m.freshValue(obj.Name+pathName(obj, path), typ)
-		m.initCells[k] = v
+	var v Value
+	if st.isHavocked(obj, k.path) {
+		// the cell was havocked (loop, callee frame) before it was first read in this state
+		v = m.freshValue(obj.Name+pathName(obj, path)+"'", typ)
+	} else {
+		var ok bool
+		v, ok = m.initCells[k]
+		if !ok {
+			v = m.freshValue(obj.Name+pathName(obj, path), typ)
+			m.initCells[k] = v
+		}
 	}
 	if sl, ok := v.(*SliceV); ok {
 		m.sliceWF(st, sl)
@@ -769,6 +783,9 @@ func (m *Machine) explore(root *Config, onReturn returnHandler) {
 		for c != nil && !c.st.dead {
 			next, forks := m.step(c, onReturn)
 			work = append(work, forks...)
+			if next != nil && next.st.dead && os.Getenv("GOVC_TRACE") != "" {
+				fmt.Fprintf(os.Stderr, "TRACE dead path in %s block %d (%s) ip %d\n", next.top.fn.Name(), next.top.block.Index, next.top.block.Comment, next.top.ip)
+			}
 			c = next
 		}
 		if m.cur.paths > m.maxPaths {
